@@ -214,6 +214,15 @@ Definition limit (c : cfg) (p : phase) : option Z :=
   | PUp | PTunnel => None
   end.
 
+(* The limit in force in a state.  When the PROXY header is awaited lazily (its timer runs
+   concurrently with the timer of the phase that follows: handshake or idle wait), a connection
+   stalled in the header is closed by whichever of the two fires first. *)
+Definition eff_limit (c : cfg) (s : st) : option Z :=
+  match ph s with
+  | PPHdr => if pp_early then limit c PPHdr else omin (limit c PPHdr) (limit c (nxt s))
+  | p => limit c p
+  end.
+
 (* a client that makes no progress in phase p *)
 Definition stall (p : phase) (e : ev) : bool :=
   match e with
